@@ -94,12 +94,12 @@ def _build_program(args):
     d = os.path.join(tmp, "prog%d" % k if k >= 0 else "progT")
     os.makedirs(d)
     tape = Tape(seed=seed)
-    force = [["chain"], ["enum", "template"], ["objargs"], ["chain", "objargs", "template"], [], ["enum_nested", "chain"],
-             ["template"], ["objargs", "template", "enum_nested"]][k % 8]
+    force = [["chain"], ["enum", "template"], ["objargs", "plainchain"], ["chain", "objargs", "template"], ["plainchain"],
+             ["enum_nested", "chain"], ["template"], ["objargs", "template", "enum_nested"]][k % 8]
     feats = {"enums": True, "force": force}
     if k < 0:          # the `thisargs` program: class templates using `This` as argument / return everywhere
         feats = {"enums": True, "force": ["template", "template", "enum_nested"], "this_args": True,
-                 "class_enum_nested": True}
+                 "class_enum_nested": True, "plain_derive": False}
     prog, itext, lib = MP.generate(tape, feats)
     open(os.path.join(d, "prog.i"), "w").write(itext)
     open(os.path.join(d, "lib.h"), "w").write(lib)
